@@ -76,6 +76,9 @@ func Report(ctx *hx.Ctx, scn *Scenario, mode Mode, out Outcome, theorems string)
 	}
 	if len(out.Fails) > 0 {
 		class := out.Fails[0][0]
+		if Reported(ctx, "property:"+class) {
+			return
+		}
 		small := Shrink(scn, 120, func(c *Scenario) bool {
 			o := Execute(c, mode, ctx.Oracle, nil)
 			return o.Err == nil && len(o.Fails) > 0 && o.Fails[0][0] == class
@@ -89,6 +92,9 @@ func Report(ctx *hx.Ctx, scn *Scenario, mode Mode, out Outcome, theorems string)
 		return
 	}
 	if out.DiffAt >= 0 {
+		if Reported(ctx, "correspondence:"+cmdOf(out.DiffLine)) {
+			return
+		}
 		var direct *Scenario
 		var dmsg [2]string
 		small := Shrink(scn, 120, func(c *Scenario) bool {
@@ -114,6 +120,17 @@ func Report(ctx *hx.Ctx, scn *Scenario, mode Mode, out Outcome, theorems string)
 			fmt.Sprintf("correspondence Chain.Model ~ chain.Repository no longer checks (%s are about the model): request %q impl=%s model=%s",
 				theorems, o.DiffLine, o.Impl, o.Model), small, false)
 	}
+}
+
+// Reported tells whether a violation of that class was already recorded in this run (hx keeps the first per class),
+// so that later failing scenarios of the same class are not shrunk again.
+func Reported(ctx *hx.Ctx, class string) bool {
+	for _, v := range ctx.Violations {
+		if v.Class == class {
+			return true
+		}
+	}
+	return false
 }
 
 // LoadReplay reads a scenario out of a replay file written by hx (field "replay") or a bare scenario file.
